@@ -119,5 +119,8 @@ func zzH_C05_detector() {
 		zzverif.Assert(e.Round == round && e.RoundIndex == index && e.VoteType == uint8(kind) && e.SignerIdx == signer, "the evidence names the round, round index, kind and signer of the two votes (not the node's current context)")
 		zzverif.Assert(len(e.Signs) == 2 && e.Signs[0].Hash == h[0] && string(e.Signs[0].Sign) == string(sig[0]) && e.Signs[1].Hash == h[1] && string(e.Signs[1].Sign) == string(sig[1]), "and carries both votes' block hashes with their signatures")
 	}
+	// the staking module keeps its own copy of the vote kinds; evidence carries the consensus layer's
+	zzverif.Assert(staking.Prevote == uint8(Prevote) && staking.Precommit == uint8(Precommit) && staking.NextIndex == uint8(NextIndex) && staking.Certificate == uint8(Certificate) && staking.Propose == uint8(Propose),
+		"the staking module and the consensus layer number the vote kinds alike")
 	zzverif.Reach("end")
 }
